@@ -1,4 +1,420 @@
-import GS.Model.Responder
-/-! C03 — responder output mirrors its own selector traversal (theorems follow). -/
+import GSProofs.Lemmas.ResponderPrepare
+/-!
+# C03 — Responder output mirrors its own selector traversal
+
+Property sentence: *For every request a responder accepts, the link metadata it sends lists, in
+traversal order, each link its selector traversal visits over the responder's store, marked present
+or missing, and block data accompanies exactly the present links not excluded by the request's
+do-not-send-cids or do-not-send-first-blocks extensions and not already sent in the same
+deduplication scope.  The final status is complete-full when no visited link was missing,
+complete-partial otherwise, and content-not-found when the root block itself is missing.*
+
+Objects (all in `GS/Model/Responder.lean`, tied to the Go code by the correspondence stream
+`responder`):
+
+* `startRequest s lt p r hook ext stop` — the operational model: `prepareQuery`, the `runTraversal`
+  loop with one `sendResponse` transaction per link load, `FinishRequest` / `FinishWithError`; its
+  second component is the list of transactions (`Txn` = the response operations of one
+  `ResponseStream.Transaction`) in the order they reach the peer's message queue.
+* `buildMsg g` — the message a `messagequeue.Builder` / `message.Builder` builds from the group `g` of
+  transactions batched into it; `Msg.annotate` reads a message back as the requestor sees it: per
+  metadata entry the cid, present/missing, and whether the block travels in that same message.
+* `respondSpec lt has want inUse` — the declarative specification.
+
+The theorems quantify over every link tree `lt` (at least as general as every DAG × selector, see
+DESIGN §3), every store without corrupted blocks, every well-formed combination of the three
+extensions, every state `p` of the peer's link tracker in which the request id is fresh (so:
+arbitrary other requests in progress, in this or other dedup scopes), and every batching of the
+transactions into wire messages (`groups`, any list of groups of transactions whose operations
+concatenate to the request's operations).
+
+Interpretation notes (see also `refines_literal_*` below):
+* "already sent in the same deduplication scope" is what the code keeps: the cid has been traversed
+  with its block by a request still in progress in the scope (`inUse` for the others, the `seen`
+  list of `attach` for the request itself).  For the request itself this counts a block among the
+  first `skip` links as "sent" (the requestor declared it has the first `skip` blocks).
+-/
 namespace GS.C03
+open GS.LinkTrack GS.Responder GS.C03L
+
+/-- the transactions of an accepted (validated, not paused by a hook) and uninterrupted request. -/
+def respondTxns (s : Store) (lt : LT) (p : PeerTracker) (r : Req) (e : Ext) : List Txn :=
+  (startRequest s lt p r {} e .never).2.1
+
+/-- `groups` is a batching of the request's transactions into wire messages. -/
+def Batching (groups : List (List Txn)) (txns : List Txn) : Prop :=
+  groups.flatten.flatten = txns.flatten
+
+/-! ### the operational model emits exactly the specified operations -/
+
+theorem specStatus_present (c : Cid) (es : List (Cid × Bool)) :
+    specStatus ((c, true) :: es) = if es.all (fun e => e.2) then .completedFull else .completedPartial := by
+  simp only [specStatus, List.all_cons, Bool.true_and]
+
+theorem any_not_eq_not_all (l : List (Cid × Bool)) :
+    l.any (fun e => !e.2) = !l.all (fun e => e.2) := by
+  induction l with
+  | nil => rfl
+  | cons e es ih => simp [ih, Bool.not_and]
+
+/-- core lemma: the operations of the request are one block operation per specified item, in
+order, with index 1, 2, …, followed by the status operation of the specified final status. -/
+theorem respond_ops (s : Store) (hs : s.corrupt = []) (lt : LT) (p : PeerTracker) (r : Req)
+    (e : Ext) (w : Want) (hw : e.want? = some w) (hf : Fresh p r) :
+    (respondTxns s lt p r e).flatten
+      = (mkTxns 0 (respondSpec lt s.has w (inUse p w.key)).1).flatten
+          ++ [.status (respondSpec lt s.has w (inUse p w.key)).2] := by
+  obtain ⟨p1, hprep, hcnt, hskip, hmiss, hrc⟩ := prepare_ok p r e w hw hf
+  obtain ⟨hr1, hr2⟩ := runTraversal_root s hs r p1 lt
+  have hex : (fun c => rcOf p1 r c != 0) = (fun c => w.ignore.contains c || inUse p w.key c) :=
+    funext hrc
+  have htx : (thread r p1 (lt.visit s.has)).2
+      = mkTxns 0 (attach w.skip (fun c => w.ignore.contains c || inUse p w.key c) 0 [] (lt.visit s.has)) := by
+    rw [thread_txns, hcnt, hskip, hex]
+  have hm : missOf (thread r p1 (lt.visit s.has)).1 r = (lt.visit s.has).any (fun e => !e.2) := by
+    rw [thread_miss, hmiss, Bool.false_or]
+  unfold respondTxns startRequest executeQuery
+  simp only [hprep]
+  -- split the result of the loop into its components
+  generalize hres : runTraversal s Stop.never r (sizeAll [lt] + 1) p1 { trav := { todo := [lt] } } = res at hr1 hr2
+  obtain ⟨pA, runA, txA, exA⟩ := res
+  simp only at hr1 hr2
+  obtain ⟨htxA, hexA⟩ := Prod.mk.inj hr2
+  subst hr1 htxA
+  obtain ⟨c, kids⟩ := lt
+  simp only [respondSpec]
+  by_cases hc : s.has c = true
+  · simp only [hc, if_true] at hexA
+    subst hexA
+    simp only [finishQuery, finishTracking_all, hm, htx, List.nil_append, List.flatten_append,
+      List.flatten_cons, List.flatten_nil, List.append_nil, List.cons_append]
+    congr 2
+    simp only [LT.visit, hc, if_true, List.any_cons, Bool.not_true, Bool.false_or, specStatus_present,
+      any_not_eq_not_all, Bool.not_not]
+  · have hc' : s.has c = false := by simpa using hc
+    simp only [hc', Bool.false_eq_true, if_false] at hexA
+    subst hexA
+    simp only [LT.visit, hc', Bool.false_eq_true, if_false] at htx
+    simp only [finishQuery, finishWithError, LT.visit, hc', Bool.false_eq_true, if_false, htx, specStatus,
+      List.nil_append, List.flatten_append, List.flatten_cons, List.flatten_nil, List.append_nil]
+
+/-! ### `refines` -/
+
+/-- **C03, metadata and block attachment.**  For every batching of the request's transactions into
+wire messages, the metadata entries read off the messages in order — cid, present/missing, "the
+block travels in this message" — are exactly `respondSpec`: the links of the traversal over the
+responder's store in traversal order, `present` iff the responder holds the block, block attached
+iff present ∧ index > skip ∧ cid ∉ do-not-send-cids ∧ not in use by another request in progress in
+the dedup scope ∧ not traversed earlier by this request. -/
+theorem refines (s : Store) (hs : s.corrupt = []) (lt : LT) (p : PeerTracker) (r : Req)
+    (e : Ext) (w : Want) (hw : e.want? = some w) (hf : Fresh p r)
+    (groups : List (List Txn)) (hg : Batching groups (respondTxns s lt p r e)) :
+    (groups.map buildMsg).flatMap Msg.annotate = (respondSpec lt s.has w (inUse p w.key)).1 := by
+  have hgood : Good groups.flatten.flatten := by
+    rw [hg, respond_ops s hs lt p r e w hw hf]
+    exact Good_snoc_status _ _ (Good_attach _ _ _ _ _ _)
+  rw [annotate_groups groups hgood, hg, respond_ops s hs lt p r e w hw hf, itemsOf_append, itemsOf_mkTxns]
+  simp [itemsOf]
+
+/-- **C03, block and metadata travel together.**  In every message of every batching, each block
+has a `present` metadata entry for its cid in that same message (no block before or after its
+metadata). -/
+theorem block_with_metadata (s : Store) (hs : s.corrupt = []) (lt : LT) (p : PeerTracker) (r : Req)
+    (e : Ext) (w : Want) (hw : e.want? = some w) (hf : Fresh p r)
+    (groups : List (List Txn)) (hg : Batching groups (respondTxns s lt p r e)) :
+    ∀ g ∈ groups, (buildMsg g).stray = [] := by
+  intro g hgm
+  have hgood : Good (groups.map List.flatten).flatten := by
+    rw [← List.flatten_flatten, hg, respond_ops s hs lt p r e w hw hf]
+    exact Good_snoc_status _ _ (Good_attach _ _ _ _ _ _)
+  exact stray_buildMsg g (Good_of_mem_flatten hgood _ (List.mem_map_of_mem hgm))
+
+/-- **C03, final status on the wire.**  For every batching, the last status code the messages
+carry for the request is the specified one. -/
+theorem final_status (s : Store) (hs : s.corrupt = []) (lt : LT) (p : PeerTracker) (r : Req)
+    (e : Ext) (w : Want) (hw : e.want? = some w) (hf : Fresh p r)
+    (groups : List (List Txn)) (hg : Batching groups (respondTxns s lt p r e)) :
+    finalStatus (groups.map buildMsg) = some (respondSpec lt s.has w (inUse p w.key)).2 := by
+  rw [finalStatus_groups, hg, respond_ops s hs lt p r e w hw hf, lastStatusOp_append]
+  simp [lastStatusOp]
+
+/-! ### `status` -/
+
+theorem attach_present (skip : Int) (ex : Cid → Bool) (es : List (Cid × Bool)) :
+    ∀ (i : Nat) (seen : List Cid),
+      (attach skip ex i seen es).map (fun it => (it.cid, it.present)) = es := by
+  induction es with
+  | nil => intros; rfl
+  | cons e es ih => intro i seen; obtain ⟨c, b⟩ := e; simp [attach, ih]
+
+/-- the specified metadata is the traversal: cids and present flags of `lt.visit`, in order. -/
+theorem spec_metadata (lt : LT) (has : Cid → Bool) (w : Want) (inUse : Cid → Bool) :
+    (respondSpec lt has w inUse).1.map (fun it => (it.cid, it.present)) = lt.visit has := by
+  simp [respondSpec, attach_present]
+
+/-- **C03, status.**  complete-full ↔ no listed link is missing. -/
+theorem status_full_iff (lt : LT) (has : Cid → Bool) (w : Want) (inUse : Cid → Bool) :
+    (respondSpec lt has w inUse).2 = .completedFull ↔
+      ∀ it ∈ (respondSpec lt has w inUse).1, it.present = true := by
+  have hmd := spec_metadata lt has w inUse
+  have hall : (∀ it ∈ (respondSpec lt has w inUse).1, it.present = true) ↔ ∀ e ∈ lt.visit has, e.2 = true := by
+    rw [← hmd]
+    simp
+  rw [hall]
+  simp only [respondSpec]
+  obtain ⟨c, kids⟩ := lt
+  by_cases hc : has c = true
+  · simp only [LT.visit, hc, if_true, specStatus_present]
+    cases h : (visitAll has kids).all (fun e => e.2) with
+    | true => simpa using List.all_eq_true.mp h
+    | false =>
+      simp only [Bool.false_eq_true, if_false, reduceCtorEq, false_iff]
+      intro hall
+      rw [List.all_eq_true.mpr (fun x hx => hall x (List.mem_cons_of_mem _ hx))] at h
+      cases h
+  · have hc' : has c = false := by simpa using hc
+    simp [LT.visit, hc', specStatus]
+
+/-- **C03, status.**  root missing ⇒ content-not-found, and the metadata is the single missing root
+entry (without block). -/
+theorem status_root_missing (c : Cid) (kids : List LT) (has : Cid → Bool) (w : Want) (inUse : Cid → Bool)
+    (h : has c = false) :
+    respondSpec (.node c kids) has w inUse = ([⟨c, false, false⟩], .contentNotFound) := by
+  simp [respondSpec, LT.visit, h, attach, specStatus]
+
+/-- **C03, status.**  root present and some listed link missing ⇒ complete-partial; so the status is
+always one of the three. -/
+theorem status_partial_iff (c : Cid) (kids : List LT) (has : Cid → Bool) (w : Want) (inUse : Cid → Bool)
+    (h : has c = true) :
+    (respondSpec (.node c kids) has w inUse).2 = .completedPartial ↔
+      ∃ it ∈ (respondSpec (.node c kids) has w inUse).1, it.present = false := by
+  have hfull := status_full_iff (.node c kids) has w inUse
+  have h3 : (respondSpec (.node c kids) has w inUse).2 = .completedFull ∨
+      (respondSpec (.node c kids) has w inUse).2 = .completedPartial := by
+    simp only [respondSpec, LT.visit, h, if_true, specStatus_present]
+    cases (visitAll has kids).all (fun e => e.2) <;> simp
+  constructor
+  · intro hp
+    cases hall : (respondSpec (.node c kids) has w inUse).1.all (fun it => it.present) with
+    | true =>
+      have : ∀ it ∈ (respondSpec (.node c kids) has w inUse).1, it.present = true :=
+        fun it hit => List.all_eq_true.mp hall it hit
+      rw [hfull.mpr this] at hp
+      cases hp
+    | false =>
+      obtain ⟨it, hit, hpr⟩ := List.all_eq_false.mp hall
+      exact ⟨it, hit, by simpa using hpr⟩
+  · intro ⟨it, hit, hpr⟩
+    rcases h3 with h3 | h3
+    · have := hfull.mp h3 it hit
+      rw [hpr] at this; cases this
+    · exact h3
+
+/-! ### the scripted batching of the harness is a batching -/
+
+theorem batchFrom_flatten (script : List Nat) : ∀ (fuel pos : Nat) (ts : List Txn),
+    ts.length ≤ fuel → (batchFrom script fuel pos ts).flatten = ts := by
+  intro fuel
+  induction fuel with
+  | zero =>
+    intro pos ts h
+    have : ts = [] := List.eq_nil_of_length_eq_zero (by omega)
+    subst this; simp [batchFrom]
+  | succ fuel ih =>
+    intro pos ts h
+    cases ts with
+    | nil => simp [batchFrom]
+    | cons t ts =>
+      simp only [batchFrom, List.flatten_cons]
+      rw [ih]
+      · exact List.take_append_drop _ _
+      · simp only [List.length_drop, List.length_cons] at h ⊢
+        have : 1 ≤ max 1 (script.getD (pos % max 1 script.length) 1) := Nat.le_max_left _ _
+        omega
+
+theorem batch_is_batching (script : List Nat) (pos : Nat) (txns : List Txn) :
+    Batching (batch script pos txns) txns := by
+  unfold Batching batch
+  rw [batchFrom_flatten _ _ _ _ (Nat.le_refl _)]
+  induction txns with
+  | nil => rfl
+  | cons t ts ih =>
+    cases t with
+    | nil => simpa [List.filter] using ih
+    | cons o os => simp [List.filter, ih]
+
+/-! ### literal reading of "not already sent" -/
+
+/-- cids of present links among the first `skip` links / cids of links after them. -/
+def windowCids (skip : Int) : Nat → List (Cid × Bool) → List Cid
+  | _, [] => []
+  | i, (c, pres) :: es =>
+    (if pres && decide (((i + 1 : Nat) : Int) ≤ skip) then [c] else []) ++ windowCids skip (i + 1) es
+
+def lateCids (skip : Int) : Nat → List (Cid × Bool) → List Cid
+  | _, [] => []
+  | i, (c, _) :: es =>
+    (if decide (skip < ((i + 1 : Nat) : Int)) then [c] else []) ++ lateCids skip (i + 1) es
+
+theorem attach_eq_literal (skip : Int) (ex : Cid → Bool) (es : List (Cid × Bool)) :
+    ∀ (i : Nat) (seen sent : List Cid),
+      (∀ c ∈ lateCids skip i es, ex c = false → seen.contains c = sent.contains c) →
+      (∀ c ∈ windowCids skip i es, c ∉ lateCids skip i es) →
+      attach skip ex i seen es = attachLiteral skip ex i sent es := by
+  induction es with
+  | nil => intros; rfl
+  | cons e es ih =>
+    intro i seen sent H W
+    obtain ⟨c, pres⟩ := e
+    simp only [attach, attachLiteral]
+    by_cases hlate : skip < ((i + 1 : Nat) : Int)
+    · -- a link after the window
+      have hd : decide (skip < ((i + 1 : Nat) : Int)) = true := decide_eq_true hlate
+      have hcl : c ∈ lateCids skip i ((c, pres) :: es) := by
+        simp only [lateCids, hd, if_true]; exact List.mem_append_left _ List.mem_cons_self
+      have hb : (pres && decide (skip < ((i + 1 : Nat) : Int)) && !ex c && !seen.contains c)
+          = (pres && decide (skip < ((i + 1 : Nat) : Int)) && !ex c && !sent.contains c) := by
+        cases hex : ex c with
+        | true => simp
+        | false => rw [H c hcl hex]
+      rw [hb]
+      congr 1
+      apply ih
+      · intro c' hc' hex'
+        have hc'l : c' ∈ lateCids skip i ((c, pres) :: es) := by
+          simp only [lateCids]; exact List.mem_append_right _ hc'
+        have hH := H c' hc'l hex'
+        by_cases hcc : c' = c
+        · subst hcc
+          cases pres with
+          | false => simpa using hH
+          | true =>
+            rw [if_pos rfl, hd, hex']
+            simp only [Bool.true_and, Bool.not_false, List.contains_cons, beq_self_eq_true, Bool.true_or]
+            cases hs : sent.contains c' with
+            | true => simp only [Bool.not_true, Bool.false_eq_true, if_false, hs]
+            | false => simp only [Bool.not_false, if_true, List.contains_cons, beq_self_eq_true, Bool.true_or]
+        · have hne : (c' == c) = false := by simp [hcc]
+          have e1 : (if pres = true then c :: seen else seen).contains c' = seen.contains c' := by
+            cases pres
+            · rfl
+            · simp only [if_true, List.contains_cons, hne, Bool.false_or]
+          have e2 : ∀ b : Bool, (if b = true then c :: sent else sent).contains c' = sent.contains c' := by
+            intro b; cases b
+            · rfl
+            · simp only [if_true, List.contains_cons, hne, Bool.false_or]
+          rw [e1, e2, hH]
+      · intro c' hc' hl
+        apply W c'
+        · simp only [windowCids]; exact List.mem_append_right _ hc'
+        · simp only [lateCids]; exact List.mem_append_right _ hl
+    · -- a link inside the window: no block either way
+      have hd : decide (skip < ((i + 1 : Nat) : Int)) = false := by simpa using hlate
+      simp only [hd, Bool.and_false, Bool.false_and, Bool.false_eq_true, if_false]
+      congr 1
+      apply ih
+      · intro c' hc' hex'
+        have hc'l : c' ∈ lateCids skip i ((c, pres) :: es) := by
+          simp only [lateCids]; exact List.mem_append_right _ hc'
+        have hH := H c' hc'l hex'
+        cases pres with
+        | false => simpa using hH
+        | true =>
+          have hcw : c ∈ windowCids skip i ((c, true) :: es) := by
+            have hle : ((i + 1 : Nat) : Int) ≤ skip := by omega
+            have hd2 : decide (((i + 1 : Nat) : Int) ≤ skip) = true := decide_eq_true hle
+            simp only [windowCids, hd2, Bool.true_and, if_true]
+            exact List.mem_append_left _ List.mem_cons_self
+          have hcc : c' ≠ c := by
+            intro h; subst h; exact W c' hcw hc'l
+          have hne : (c' == c) = false := by simp [hcc]
+          simp only [if_true, List.contains_cons, hne, Bool.false_or]
+          exact hH
+      · intro c' hc' hl
+        apply W c'
+        · simp only [windowCids]; exact List.mem_append_right _ hc'
+        · simp only [lateCids]; exact List.mem_append_right _ hl
+
+/-
+Full statement under the literal reading ("a block is withheld as a duplicate only if an earlier
+link of the request actually carried it"):
+
+  theorem refines_literal … : (groups.map buildMsg).flatMap Msg.annotate
+      = (respondSpecLiteral lt s.has w (inUse p w.key)).1
+
+It is FALSE of the model (and of the code, `refines_literal_counterexample`): a block whose first
+link falls inside the do-not-send-first-blocks window is not sent with a later link either.  Proved:
+the two readings coincide when no present block of the window is linked again after the window.
+-/
+
+/-- the literal reading coincides with `respondSpec` when no present block among the first `skip`
+links is linked again later (in particular when `skip ≤ 0`, or when no block is visited twice). -/
+theorem refines_literal_partial (s : Store) (hs : s.corrupt = []) (lt : LT) (p : PeerTracker) (r : Req)
+    (e : Ext) (w : Want) (hw : e.want? = some w) (hf : Fresh p r)
+    (groups : List (List Txn)) (hg : Batching groups (respondTxns s lt p r e))
+    (hnw : ∀ c ∈ windowCids w.skip 0 (lt.visit s.has), c ∉ lateCids w.skip 0 (lt.visit s.has)) :
+    (groups.map buildMsg).flatMap Msg.annotate = (respondSpecLiteral lt s.has w (inUse p w.key)).1 := by
+  rw [refines s hs lt p r e w hw hf groups hg]
+  simp only [respondSpec, respondSpecLiteral]
+  exact attach_eq_literal _ _ _ 0 [] [] (fun _ _ _ => rfl) hnw
+
+/-- a root linking twice to the same child; the requestor says it has the first two blocks. -/
+def cexLT : LT := .node 0 [.node 1 [], .node 1 []]
+def cexStore : Store := { held := [0, 1] }
+def cexExt : Ext := { skip := .ok 2 }
+def cexWant : Want := { skip := 2 }
+
+/-- the excluded region is real: the third link (block 1 again, index 3 > skip = 2) carries no
+block in the model — as in the code — while the literal reading would attach it. -/
+theorem refines_literal_counterexample :
+    cexExt.want? = some cexWant ∧
+    ((batch [1] 0 (respondTxns cexStore cexLT {} 7 cexExt)).map buildMsg).flatMap Msg.annotate
+      = [⟨0, true, false⟩, ⟨1, true, false⟩, ⟨1, true, false⟩] ∧
+    (respondSpec cexLT cexStore.has cexWant (fun _ => false)).1
+      = [⟨0, true, false⟩, ⟨1, true, false⟩, ⟨1, true, false⟩] ∧
+    (respondSpecLiteral cexLT cexStore.has cexWant (fun _ => false)).1
+      = [⟨0, true, false⟩, ⟨1, true, false⟩, ⟨1, true, true⟩] := by
+  refine ⟨rfl, ?_, ?_, ?_⟩ <;> decide
+
+/-! ### non-vacuity: the hypotheses are met by non-trivial states -/
+
+/-- a tracker in which request 1 (scope: key 5) is in progress and has traversed block 2, and
+request 7 is fresh. -/
+def exTracker : PeerTracker := (({} : PeerTracker).dedupKey 1 5).traverse 1 2 true |>.1
+
+theorem exFresh : Fresh exTracker 7 := by
+  refine ⟨rfl, rfl, rfl, rfl, ?_⟩
+  intro k t h
+  simp only [exTracker, PeerTracker.dedupKey, PeerTracker.traverse, PeerTracker.setTracker,
+    PeerTracker.setScopeTracker, PeerTracker.trackerOf, PeerTracker.scopeTracker] at h
+  by_cases hk : k = 5
+  · subst hk
+    simp [aget, aset, aerase, LinkTracker.record] at h
+    subst h; rfl
+  · have : (5 == k) = false := by simp [Ne.symm hk]
+    simp [aget, aset, aerase, Ne.symm hk] at h
+
+/-- a DAG with a shared child (2 linked twice) and a missing block (3); key 5, ignore {4}, skip 1. -/
+def exLT : LT := .node 0 [.node 2 [], .node 3 [.node 9 []], .node 4 [], .node 2 [], .node 6 []]
+def exStore : Store := { held := [0, 2, 4, 6] }
+def exExt : Ext := { key := .ok 5, ignore := .ok [4], skip := .ok 1 }
+def exWant : Want := { key := some 5, ignore := [4], skip := 1 }
+
+/-- the hypotheses of `refines` / `block_with_metadata` / `final_status` are jointly satisfiable by
+this non-trivial state (another request in progress in the same scope, all three extensions, a
+missing block, a shared block, a batching that splits and merges transactions). -/
+example :=
+  refines exStore rfl exLT exTracker 7 exExt exWant rfl exFresh _ (batch_is_batching [2, 1] 0 _)
+
+/-- test (one concrete run): root skipped, block 2 in use by request 1, 3 missing (its subtree is not
+visited), 4 ignored, 2 again, 6 sent; status partial — through the batching [2,1]. -/
+example :
+    exExt.want? = some exWant ∧
+    ((batch [2, 1] 0 (respondTxns exStore exLT exTracker 7 exExt)).map buildMsg).flatMap Msg.annotate
+      = [⟨0, true, false⟩, ⟨2, true, false⟩, ⟨3, false, false⟩, ⟨4, true, false⟩, ⟨2, true, false⟩, ⟨6, true, true⟩] ∧
+    respondSpec exLT exStore.has exWant (inUse exTracker (some 5))
+      = ([⟨0, true, false⟩, ⟨2, true, false⟩, ⟨3, false, false⟩, ⟨4, true, false⟩, ⟨2, true, false⟩, ⟨6, true, true⟩],
+         .completedPartial) := by
+  refine ⟨rfl, ?_, ?_⟩ <;> decide
+
 end GS.C03
